@@ -1,4 +1,5 @@
 """C11 — a multi-document stream is the list of its documents, each on its own (DESIGN §4 C11)."""
+import re
 from ..mir import MissingAnchor, norm
 from ..rules import render, writes_in, must_pass, aggregates, bool_switches, last_seg, switch_edges
 from .. import proto
@@ -90,6 +91,30 @@ def rule_reset(ctx, fx, config):
     for comp in sk.sccs():
         ctx.check(bool(set(spulls) & comp), "PROGRESS", "C11:PROGRESS:skip", "every cycle of the skip loop pulls a parser event",
                   "skip_to_next_document contains a cycle without a parser pull (possible hang)", config, ctx.where(sk))
+
+
+def rule_reset_whole(ctx, fx, config, prop="C11"):
+    """RESET:clears-whole — a per-document table that is cleared slot by slot is walked from its first slot to its last: the
+    iterator the clearing loop runs over is the field itself, not a sub-range of it (`anchors[base..]`, `.skip(n)`,
+    `.take(n)`).  "Only the slots used since the last boundary" is exactly the kind of reasoning that goes wrong when another
+    function pads the table (ensure_anchor_capacity grows it by eight): a slot filled by one document is then never cleared
+    and a later document's alias resolves to it."""
+    rs = fx.fn(RESET_FN)
+    ctx.saw(rs)
+    n = 0
+    for b, t in rs.calls():
+        if last_seg(fx.callee_decl(t)) not in ("into_iter", "iter_mut") or not t["args"]:
+            continue
+        with rs.deep():
+            a = render(rs.sym_operand(t["args"][0]))
+        m = re.search(r"self\.(\w+)", a)
+        if not m:
+            continue
+        n += 1
+        fld = m.group(1)
+        ctx.check(a == "self." + fld, "RESET", "%s:RESET:clears-whole:%s" % (prop, fld), "the clearing loop walks the whole of `%s`" % fld,
+                  "reset_document_state clears only part of `%s` (it iterates over `%s`): a slot outside that range keeps what an earlier document stored there, and a later document's alias can resolve to it" % (fld, a[:80]), config, ctx.where(rs, b))
+    ctx.floor("RESET.slotwise-tables", n, 2, config)
 
 
 def rule_scope(ctx, fx, config):
@@ -376,6 +401,7 @@ def run(ctx):
         fx = ctx.facts(config)
         rule_null_document_tag(ctx, fx, config)
         rule_reset(ctx, fx, config)
+        rule_reset_whole(ctx, fx, config)
         # the iterator judges every document on its own account: whatever observe() accumulates is cleared when a document starts
         # under per-document enforcement (shared rule, C07) — otherwise the iterator rejects what the batch function accepts
         C07.rule_reset(ctx, fx, config, prop="C11")
